@@ -36,6 +36,7 @@ class Contract:
         self.unchecked = kw.pop("unchecked", [])    # arrays whose index obligations are NOT generated (listed as unverified in the evidence)
         self.store_asserts = kw.pop("store_asserts", {})   # array or "array@Lk" -> [spec exprs over the current state, `value` and `at` (alias `index`)]: must hold at every store to that array (inside loop Lk)
         self.sums = kw.pop("sums", {})              # name -> (bound var, n expr, term expr): prefix sums with a proved monotonicity lemma
+        self.pure = kw.pop("pure", False)           # as a callee: reads only its scalar arguments, writes nothing; the result is an unknown value of the return type
         if kw:
             raise TypeError("unknown contract fields %s" % list(kw))
 
@@ -332,8 +333,31 @@ class Unit:
         args = e[2]
         if len(args) != len(cfunc["params"]):
             raise EvalError("call to %s: arity mismatch" % name)
+        rty = unconst(cfunc.get("ret") or "void")
+
+        def result_val():
+            if rty == "bool":
+                return Val(ev.fresh("ret_" + name, z3.BoolSort()), "bool")
+            if rty in INT_TYPES:
+                t = ev.fresh("ret_" + name)
+                ev.range_fact(t, rty, st)
+                return Val(t, "int")
+            if rty in ("f32", "f64"):
+                return Val(ev.fresh("ret_" + name, sym.F), "flt")
+            return Val(IV(0), "opaque")
+
+        if cc.pure:
+            # the arguments are evaluated (their own safety obligations are generated); nothing is written
+            for (pn, pt), a in zip(cfunc["params"], args):
+                if pt.startswith("p:") and not pt.startswith("p:c:"):
+                    raise EvalError("call to %s: a pure callee cannot take a writable pointer" % name)
+                if pt.startswith("x:") or pt.startswith("r:x:"):
+                    continue        # a function reference / opaque object handed through
+                ev.ev(a, st)
+            return result_val()
         cst = State()          # callee's view, before the call
         post_updates = []
+        views = []             # (callee param, caller array, offset term)
         for (pn, pt), a in zip(cfunc["params"], args):
             if pt.startswith("p:"):
                 if a[0] == "addr" and a[1][0] == "v" and a[1][1] in st.vars:
@@ -341,14 +365,24 @@ class Unit:
                     ety = unconst(pt[2:])
                     arr0 = z3.K(z3.IntSort(), z3.IntVal(0))
                     cst.arrs[pn] = z3.Store(arr0, 0, to_int(st.vars[x]))
-                    post_updates.append(("local", pn, x))
+                    post_updates.append(("local", pn, x, None))
                 else:
                     v = ev.ev(a, st)
-                    if v.k != "ptr" or v.arr not in st.arrs or not (z3.is_int_value(v.t) and v.t.as_long() == 0):
+                    if v.k != "ptr" or v.arr not in st.arrs:
                         raise EvalError("call to %s: unsupported pointer argument" % name)
-                    cst.arrs[pn] = st.arrs[v.arr]
+                    zero = z3.is_int_value(v.t) and v.t.as_long() == 0
+                    if zero:
+                        cst.arrs[pn] = st.arrs[v.arr]
+                    else:
+                        # a pointer into the middle of a caller array: the callee sees the view q -> a[off + q]
+                        q = z3.Int("q?view")
+                        cst.arrs[pn] = z3.Lambda([q], z3.Select(st.arrs[v.arr], q + v.t))
+                    views.append((pn, v.arr, v.t))
                     if not pt.startswith("p:c:"):
-                        post_updates.append(("array", pn, v.arr))
+                        post_updates.append(("array", pn, v.arr, None if zero else v.t))
+            elif pt.startswith("x:") or pt.startswith("r:x:"):
+                cst.vars[pn] = Val(IV(0), "opaque")     # function reference / object: opaque to the contract
+                cst.types[pn] = pt
             else:
                 v = ev.ev(a, st)
                 cst.vars[pn] = ev.coerce(v, unconst(pt)) if v.k != "ptr" else v
@@ -357,28 +391,56 @@ class Unit:
         cse = spec.SpecEval(spec.Ghosts(), self.consts)
         for g, (params, body) in cc.ghost.items():
             cse.ghosts.declare(g, params, body)
+        # the extents the callee's contract states for its pointer parameters must fit into the caller's arrays
+        cext = {}
+        for pn, arr, off in views:
+            src = cc.extents.get(pn)
+            if src is None:
+                continue
+            ext_c = cse.term(src, cinit, init=cinit)
+            cext[pn] = ext_c
+            if arr in getattr(ev, "unchecked", ()):
+                continue
+            ext = ev.extents.get(arr)
+            if ext is None:
+                ev.oblige("C.extent", off >= 0, st, "callee %s: %s starts at a non-negative position of %s (extent unspecified)" % (name, pn, arr))
+            else:
+                ev.oblige("C.extent", z3.And(off >= 0, ext_c >= 0, off + ext_c <= ext), st,
+                          "callee %s: the %s elements it may touch through %s lie inside %s" % (name, src, pn, arr))
         for src in cc.requires:
             ev.oblige("C.pre", cse.boolean(src, cinit, init=cinit), st, "precondition of callee %s: %s" % (name, src))
         # havoc what the callee may write, then assume its postcondition
-        for kind, pn, target in post_updates:
+        news = {}
+        for kind, pn, target, off in post_updates:
             if kind == "local":
                 fresh = ev.fresh("%s_after_%s" % (target, name))
                 cst.arrs[pn] = z3.Store(cst.arrs[pn], 0, fresh)
             else:
-                cst.arrs[pn] = ev.fresh("%s_after_%s" % (target, name), ev.arr_sort(target))
+                old = news.get(target, st.arrs[target])
+                new = ev.fresh("%s_after_%s" % (target, name), ev.arr_sort(target))
+                news[target] = new
+                q = z3.Int("q?frame")
+                if pn in cext:
+                    lo = off if off is not None else IV(0)
+                    st.assume(z3.ForAll([q], z3.Implies(z3.Or(q < lo, q >= lo + cext[pn]), z3.Select(new, q) == z3.Select(old, q))))
+                if off is None:
+                    cst.arrs[pn] = new
+                else:
+                    cst.arrs[pn] = z3.Lambda([q], z3.Select(new, q + off))
+        res = result_val()
+        rt = res.t if res.k in ("int", "bool", "flt") else None
         for src in list(cc.ensures) + list(cc.ensures_ok):
-            st.assume(cse.boolean(src, cst, init=cinit))
-        for kind, pn, target in post_updates:
+            st.assume(cse.boolean(src, cst, init=cinit, result=rt))
+        for kind, pn, target, off in post_updates:
             if kind == "local":
                 t = z3.Select(cst.arrs[pn], 0)
-                old = st.vars[target]
                 st.vars[target] = Val(t, "int")
                 ty = st.types.get(target)
                 if ty:
                     ev.range_fact(t, ty, st)
             else:
-                st.arrs[target] = cst.arrs[pn]
-        return Val(IV(0), "opaque")
+                st.arrs[target] = news[target]
+        return res
 
     # ---- statements
     def run(self):
